@@ -405,6 +405,19 @@ func (fx *Facts) valueFacts(v ssa.Value, want Want, depth int, visiting map[ssa.
 		}
 		if fn := x.Common().StaticCallee(); fn != nil && fn.Blocks != nil && fx.depthOK(depth) {
 			sum := fx.retFacts(fn, 0, want, depth+1)
+			// a fact of the callee about a closure it creates does not say which values the closure captured: two
+			// calls of the helper with different arguments would yield "the same" fact with opposite polarity
+			// (LessEqual written as !slices.ContainsFunc(all, exceeds)); such facts stay inside the callee
+			if !sum.Bottom {
+				kept := emptySet()
+				for _, f := range sum.M {
+					mentionsClosure := f.T.Op == "closure" || f.T.contains(func(t *Term) bool { return t.Op == "closure" })
+					if !mentionsClosure {
+						kept.add(f)
+					}
+				}
+				sum = kept
+			}
 			s.addAll(substSet(sum, callActuals(x)))
 		}
 		return s
